@@ -92,8 +92,8 @@ def sources(tier, multi_only=False, small=False):
             if len(ph) == 2: out.append(_src('M', ph, '', ''))    # empty
             if len(ph) > 2:
                 out.append(_src('M', ph, ph[1:], ph[0]))      # all but the first, first maybe
-    if tier == 'thorough' and not multi_only and not small:
-        for p in PH:
+    if not multi_only:
+        for p in (PH if tier == 'thorough' else ('l', 'S')):
             out.append(_src('M', p, p, p))       # one-phase MultiStream
     seen = set(); res = []
     for s in out:
@@ -372,10 +372,14 @@ def _step(w, st, i, op, must_apply=False):
         st.T, st.P = sv['obs']['T'], sv['obs']['P']
         st.total = dict(sv['total'])
         post = _obs(s)
-        w.ensure(f'{tag}: phases and class restored',
-                 w.And(post['phases'] == sv['obs']['phases'], post['class'] == sv['obs']['class']),
+        # the statement fixes flows, phases, T and P; the class only as far as the number of phases does
+        w.ensure(f'{tag}: phases restored',
+                 w.And(post['phases'] == sv['obs']['phases'],
+                       post['class'] == sv['obs']['class'] or (len(post['phases']) == 1 and post['class'] == 'Stream')),
                  got=(post['class'], post['phases']), saved=(sv['obs']['class'], sv['obs']['phases']))
-        w.ensure(f'{tag}: flows restored exactly', W.same_snapshot(w, sv['obs'], post))
+        keys = sorted(set(sv['obs']['flows']) | set(post['flows']))
+        w.ensure(f'{tag}: flows restored exactly',
+                 w.And(*[w.eq(post['flows'].get(k, 0.), sv['obs']['flows'].get(k, 0.)) for k in keys]))
         for cas in st.CASs:
             w.ensure(f'{tag}: total[{cas}] restored',
                      w.eq(sum([v for (p, c), v in post['flows'].items() if c == cas], 0.),
